@@ -9,7 +9,7 @@ CHECKS["C17"] = dict(
     engine="pure",
     technique="model-based property test (rapid): generated op sequences vs sorted-slice reference model",
     design_ref="DESIGN.md §7 C17",
-    rule=("rapid draws a whole case (maxLevel 1..16, p in {0.01..0.99}, tower RNG seed, 1..70 ops of "
+    rule=("rapid draws a whole case (maxLevel 1..16 or {17,32,33,64}, p in {0.01..0.99}, tower RNG seed, 1..70 ops (one case in 20: 300..1500 ops over up to 38 keys and versions 0..60, i.e. hundreds of live entries and tall towers) of "
           "Set/Get/LowerBound/Scan/All/Delete/Reset over canonical versioned keys from the trap key pool x versions "
           "{0..12, 99, 100, 2^32, 2^63, 2^64-1}); every result is compared with a sorted slice ordered by an "
           "independently written (user key asc, version desc) order. A case is non-trivial when it held >= 8 live "
@@ -30,15 +30,15 @@ CHECKS["C16"] = dict(
     engine="pure",
     technique="property-based test (rapid): generated entry sets, membership oracle (every member must be reported present)",
     design_ref="DESIGN.md §7 C16",
-    rule=("rapid draws an entry set: 0..12 explicit keys (trap pool, arbitrary bytes, unicode) plus 0..20000 procedurally "
-          "expanded binary keys (size classes 1 / 2-10 / 11-1000 / >1000), 1..7 versions per key; the filter is built "
+    rule=("rapid draws an entry set: 0..12 explicit keys (trap pool, arbitrary bytes, unicode) plus 0..160000 procedurally "
+          "expanded binary keys (size classes 1 / 2-10 / 11-1000 / 1000-20000 / one case in 100: 60000-160000, what a default 4 MiB memtable flushes; explicit keys up to 70000 bytes), 1..7 versions per key; the filter is built "
           "with filter.Build over versioned entries (queried through ParseKey of a versioned probe, as the engine does) "
           "or with filter.New(n,p)+Add for n in 1..100000 and p in (0,1) incl. 1e-9 and 0.999999; every member must be "
           "contained. False-positive rate is not judged. Non-trivial: >= 2 distinct user keys of which >= 1 contains "
           "'@' or a non-UTF-8 byte; distinct = SHA-256 of the case JSON. Filters rebuilt by recovery are covered by the "
           "table-level leg (TestC16Levels) once flushed tables are recovered."),
     assumptions=["filter.New is called with n >= 1 and 0 < p < 1 (it panics otherwise by design)",
-                 "sets above 20000 entries are out of budget"],
+                 "sets above 160000 entries are out of budget"],
     level_text=("Generated-input search with an exact one-directional oracle (no false negative); this is the whole "
                 "property, the false-positive rate is deliberately not judged."),
     level_note="trusted: the procedural key expansion (SHA-256 of seed and counter)",
@@ -56,7 +56,7 @@ CHECKS["C13"] = dict(
     design_ref="DESIGN.md §7 C13",
     rule=("sequential leg: rapid draws 1..60 ops of Begin (non-decreasing indices, repeats), Done (any outstanding index, "
           "out of order), Done-without-Begin on an idle mark, WaitForMark with background / already-cancelled / "
-          "later-cancelled contexts, bursts of 101..260 marks from a helper goroutine; after every op a FIFO barrier "
+          "later-cancelled contexts, bursts of 101..260 marks from a helper goroutine, piles of 30..300 unfinished Begins of ONE index; after every op a FIFO barrier "
           "(verif-only VerifSync) is passed and DoneUntil must lie in [max(previous, largest finished index below the "
           "smallest unfinished one), smallest unfinished index) (equality only if it stood there when the index began), "
           "waiters whose target is covered must have returned nil, nil returns imply DoneUntil >= t, cancelled waiters "
@@ -130,7 +130,8 @@ CHECKS["C10"] = dict(
           "1..4 - every subset of the 12 entries x 5 split points into two version-ordered tables x block size {1 entry, "
           "all} x {handles as built, handles rebuilt by Recover} = 81920 layouts x 42 queries (7 keys incl. absent ones "
           "before/between/after x ts 0..5) - is ENUMERATED COMPLETELY in both tiers (non-trivial there: two tables, one "
-          "entry per block, >= 4 entries)."),
+          "entry per block, >= 4 entries). Third leg (TestC10Twin): two levelManagers on two directories are driven concurrently in ONE "
+          "process, each judged against its own brute-force oracle (state shared between stores of a process)."),
     assumptions=["table layouts are those reachable from flush batches in commit order (DESIGN.md G1)",
                  "bloom false positives occur naturally at ~1% and are not forced"],
     level_text=("Differential search: the production lookup path against an obviously-correct scan over the same data, "
@@ -141,7 +142,7 @@ CHECKS["C10"] = dict(
            dict(pkg="lvl", test="TestC10Twin", shards=8, checks=12, timeout=1200, gomaxprocs=4),
            dict(pkg="lvl", test="TestC10Exh", shards=16, checks=1, timeout=1200, gomaxprocs=1, env={"VERIF_EXH": "all", "VERIF_NSHARDS": 16})],
     thorough=[dict(pkg="lvl", test="TestC10", shards=16, checks=2500, timeout=14400),
-              dict(pkg="lvl", test="TestC10Twin", shards=8, checks=600, timeout=14400, gomaxprocs=4),
+              dict(pkg="lvl", test="TestC10Twin", shards=8, checks=250, timeout=14400, gomaxprocs=4),
               dict(pkg="lvl", test="TestC10Exh", shards=16, checks=1, timeout=1800, gomaxprocs=1, env={"VERIF_EXH": "all", "VERIF_NSHARDS": 16})],
 )
 
@@ -174,7 +175,7 @@ _E1_GEN = ("rapid draws a whole Program: Config (SkipListMaxLevel {0,1,2,4,9,12}
            "read-only anomaly) with generated interleaving, FlusherStep(1..4)/FlusherRunToIdle (the background flusher is "
            "held at 4 lock-free gates and advanced only by these ops, so flush/compaction timing is a generated, "
            "replayable dimension), Reopen(cfg') (Close with flushes pending, View/Update on the closed handle, Open with "
-           "redrawn sizes and fixed level geometry), misuse calls, full-pool reads. The interpreter drives the real DB and "
+           "redrawn sizes and fixed level geometry), misuse calls, full-pool reads. Keys come from the trap pool with sibling-aware draws (pairs that only differ after 64/100 bytes, after a UTF-8 lead byte, around '@'); writes go through Set/Delete or SetEntry; value lengths 0..300 plus, one draw in 150, 5000/70000/140000 bytes (at most three such values per program). Rare modes: multi-MiB tables (1 in 80, C01/C02), many tables (150 keys, >= 11 tables per level, 1 in 400), marathon (up to 70000 commits, 1 in 800). The interpreter drives the real DB and "
            "the MVCC+SSI reference model side by side from one goroutine (so the model is exact), values are unique tokens "
            "naming their writer. Each check judges only the discrepancy kinds its property owns; others are counted as "
            "foreign. distinct = SHA-256 of the program JSON. ")
@@ -195,31 +196,31 @@ def _e1(prop, title, owns, nontriv, q_checks, t_checks, extra_assume=()):
         level_note="trusted: the reference model (model.go), the interpreter's bookkeeping, the gate controller (steers only; verdicts never read hook state)",
         quick=[dict(pkg="dbsm", test="Test" + prop, shards=16, checks=q_checks, timeout=1200)] + (
             [dict(pkg="conc", test="Test" + prop + "Conc", race=True, shards=8, checks=8, timeout=1200, gomaxprocs=4)] if prop in ("C05", "C06", "C07") else []) + (
-            [dict(pkg="conc", test="Test" + prop + "Stress", shards=6, checks=2, timeout=1200, gomaxprocs=8, parallel=6)] if prop in ("C05", "C06") else []),
+            [dict(pkg="conc", test="Test" + prop + "Stress", shards=6, checks=(4 if prop == "C06" else 2), timeout=1200, gomaxprocs=8, parallel=6)] if prop in ("C05", "C06") else []),
         thorough=[dict(pkg="dbsm", test="Test" + prop, shards=16, checks=t_checks, timeout=14400),
                   dict(pkg="dbsm", test="Test" + prop, shards=16, checks=max(20, t_checks // 5), timeout=14400, env={"VERIF_FREE": "1"}, replay_tries=30)] + (
-            [dict(pkg="conc", test="Test" + prop + "Conc", race=True, shards=16, checks=250, timeout=14400, gomaxprocs=4)] if prop in ("C05", "C06", "C07") else []) + (
-            [dict(pkg="conc", test="Test" + prop + "Stress", shards=4, checks=60, timeout=14400, gomaxprocs=8, parallel=4)] if prop in ("C05", "C06") else []),
+            [dict(pkg="conc", test="Test" + prop + "Conc", race=True, shards=16, checks=40, timeout=14400, gomaxprocs=4)] if prop in ("C05", "C06", "C07") else []) + (
+            [dict(pkg="conc", test="Test" + prop + "Stress", shards=4, checks=12, timeout=14400, gomaxprocs=8, parallel=4)] if prop in ("C05", "C06") else []),
     )
 
 CHECKS["C01"] = _e1("C01", "Generated-history search against an exact model: every read in a fresh transaction must return the latest committed write, at whatever gate the flusher stands.",
     "reads in a transaction whose snapshot is the latest commit (after every commit a fresh View reads the keys just written, every 8th commit and at the end the whole pool, again after the flusher went idle) must equal the model's latest state.",
-    "the program read a key whose newest version had left the memtable (its memtable was flushed) AND read a deleted key whose tombstone had been flushed.", 110, 2500)
+    "the program read a key whose newest version had left the memtable (its memtable was flushed) AND read a deleted key whose tombstone had been flushed.", 110, 1800)
 CHECKS["C02"] = _e1("C02", "Generated histories with close/reopen cycles: before/after differential plus model agreement for post-reopen writes.",
     "the full-pool read before Close must equal the full-pool read after Open (differential, independent of the model); fresh reads of keys written after a reopen must return the new data (also after later flushes, compactions, reopens); Open/Close must not fail or panic.",
-    "a reopen on a directory that held tables AND a post-reopen overwrite of a pre-reopen key read back after it left the memtable.", 110, 2500)
+    "a reopen on a directory that held tables AND a post-reopen overwrite of a pre-reopen key read back after it left the memtable.", 110, 1800)
 CHECKS["C05"] = _e1("C05", "Generated interleavings with long-lived readers: every Get must equal snapshot-at-Begin overlaid with own writes; the same history is re-decided by porcupine as a split history.",
     "every Get in any live transaction (snapshot fixed at Begin, own buffer on top), re-read after every flusher step; dirty reads; the recorded history's split form (reads at Begin, writes at Commit) must be linearizable.",
-    "a transaction read, after its newer version had been flushed and a compaction had happened, a key that another transaction overwrote or deleted after its Begin.", 45, 1500)
+    "a transaction read, after its newer version had been flushed and a compaction had happened, a key that another transaction overwrote or deleted after its Begin.", 45, 1000)
 CHECKS["C06"] = _e1("C06", "Generated interleavings incl. anomaly templates; the history of committed + read-only transactions must have a real-time-respecting serial order (porcupine), cross-checked by the exact model.",
     "porcupine verdict on the history (Unknown = inconclusive, counted), dirty reads.",
-    "overlapping read-write transactions with intersecting read/write sets of which at least one was refused (or would have been an anomaly).", 60, 1500)
+    "overlapping read-write transactions with intersecting read/write sets of which at least one was refused (or would have been an anomaly).", 60, 1200)
 CHECKS["C07"] = _e1("C07", "Exact two-sided oracle for the Commit result in generated interleavings (boundaries: commit right before Begin, buffer reads, absent keys, deletes, rw transactions without writes, long histories).",
     "Commit/Update error vs the model's prediction in both directions (refused iff a store-read key was written by a transaction that committed after the snapshot).",
-    "a predicted-and-observed conflict AND a commit that succeeds although a concurrent transaction committed other keys.", 160, 4000)
+    "a predicted-and-observed conflict AND a commit that succeeds although a concurrent transaction committed other keys.", 160, 2500)
 CHECKS["C08"] = _e1("C08", "Generated abandonment (Discard, conflict, failing Update closure) and misuse, followed by flushes, compactions and restarts; token identity makes leaked writes directly visible.",
     "any read returning a token of a transaction that never committed; misuse calls must return the documented error (any applicable one) and Get not-found; Update must return the closure's own error; View/Update after Close must return ErrDBClosed without running the closure.",
-    "an abandoned write set (discard with writes / failed closure after writes) in a program that flushed and then reopened or compacted.", 110, 2500)
+    "an abandoned write set (discard with writes / failed closure after writes) in a program that flushed and then reopened or compacted.", 110, 1800)
 
 _E2_GEN = ("rapid draws a workload (Config with MemtableByteThreshold 60..20000, ImmutableBuffer 0..3, block 1/60/4096, "
            "L0TargetNum 1..2, LevelRatio 1..2 so that flushes and multi-level compactions happen; 6..12 trap-pool keys; 12..45 "
@@ -229,7 +230,7 @@ _E2_GEN = ("rapid draws a workload (Config with MemtableByteThreshold 60..20000,
            "with the real background flusher and, in snapshot mode, stores an image of the directory immediately before EVERY "
            "intercepted operation (= the state a process crash at that instant leaves: every completed operation persisted, "
            "the next one not started) together with the length of the CALL/ACK log at that instant and, per file, the "
-           "lengths covered by a completed fsync. Every image is recovered by Open in a FRESH child process. ")
+           "lengths covered by a completed fsync. Every image is recovered by Open in a FRESH child process. One workload in 20 carries one value of 1/5/9 MiB (values travel as digests). ")
 
 def _e2(prop, text, judged, nontriv, q, th):
     return dict(
@@ -249,13 +250,13 @@ def _e2(prop, text, judged, nontriv, q, th):
 
 CHECKS["C03"] = _e2("C03", "Systematic crash injection: all crash points of every generated run, crash sequences (crash again at every operation of a recovery), real SIGKILL cross-checks.",
     "Judged: (a) Open returns nil, no panic, exit 0; (b) every key reads the value of the last ACKed transaction that wrote it, or that of the transaction in flight at the crash; (c) nothing else; (d) on every n-th image the recovered store runs the follow-up workload, Closes, is reopened and must show the follow-up writes on top of what it showed after recovery. A generated subset of images is recovered under the interposer again and every image of THAT recovery is judged too (crash sequences); a generated sample of crash indices is re-run with a real SIGKILL.",
-    "the image still holds a wal (acknowledged data not yet in a table) or the crash fell into flush / compaction / recovery / Close.", 4, 120)
+    "the image still holds a wal (acknowledged data not yet in a table) or the crash fell into flush / compaction / recovery / Close.", 4, 40)
 CHECKS["C04"] = _e2("C04", "Crash injection with multi-key transactions; all-or-nothing oracle on the transaction in flight at the crash.",
     "Judged: for the transaction whose Commit had been called but had not returned at the crash, the keys on which its effect is observable read its new value on all of them or on none (workloads are biased to 2..5-key transactions; thresholds make commits straddle memtable rotations).",
-    "the crash fell while the Commit of a transaction that wrote >= 2 keys was in progress (any goroutine's operation between its CALL and ACK).", 6, 150)
+    "the crash fell while the Commit of a transaction that wrote >= 2 keys was in progress (any goroutine's operation between its CALL and ACK).", 6, 60)
 CHECKS["C14"] = _e2("C14", "Crash injection plus loss of unsynced tails: every image whose files have bytes beyond their last completed fsync is additionally cut.",
     "Judged: the C03 oracles (a)(b)(c)(d) on images in which files with bytes written after their last completed fsync were truncated: to the synced length (all such files at once), and per file to synced+{0,1,7,8,9}, written-{1,2,8,9}, the middle and 8 drawn positions (thorough: every length when the tail is <= 256 bytes). A failure counts for C14 only if the uncut image passes.",
-    "at least one byte was cut (always, by construction).", 2, 40)
+    "at least one byte was cut (always, by construction).", 2, 28)
 
 _E3_GEN = ("rapid draws a workload: 2..8 goroutines x 4..14 (or 5x as many) transactions on 3..6 hot trap-pool keys, scripts "
            "derived from a drawn seed (Begin/Get/Set/Delete/Commit/Discard or Update/View closures, read-only share, retry on "
@@ -281,8 +282,8 @@ CHECKS["C12"] = dict(
     level_note="trusted: Go race detector, porcupine, the history recording in conc_test.go",
     quick=[dict(pkg="conc", test="TestC12Conc", race=True, shards=8, checks=10, timeout=1800, gomaxprocs=4, parallel=8),
            dict(pkg="conc", test="TestC12Stress", shards=6, checks=2, timeout=1200, gomaxprocs=8, parallel=6)],
-    thorough=[dict(pkg="conc", test="TestC12Conc", race=True, shards=16, checks=400, timeout=14400, gomaxprocs=4),
-              dict(pkg="conc", test="TestC12Stress", shards=4, checks=60, timeout=14400, gomaxprocs=8, parallel=4)],
+    thorough=[dict(pkg="conc", test="TestC12Conc", race=True, shards=16, checks=50, timeout=14400, gomaxprocs=4),
+              dict(pkg="conc", test="TestC12Stress", shards=4, checks=12, timeout=14400, gomaxprocs=8, parallel=4)],
 )
 
 CHECKS["C15"] = dict(
